@@ -1164,3 +1164,92 @@ pub fn reach_family(tier: Tier) -> Vec<Member> {
     }
     out
 }
+
+// ------------------------------------------------------------------------------------------
+// leb: function counts and body sizes on both sides of every LEB-length boundary
+// ------------------------------------------------------------------------------------------
+
+/// instruction bytes (without `end`) of exactly `len` bytes: marker + padding.
+/// `nops` of the padding bytes are `nop`s (which walrus elides, so the output shrinks).
+pub fn padded_code(marker: i32, len: usize, nops: usize) -> Vec<u8> {
+    let mut code = cat(&[&i32_const(marker), &[DROP]]);
+    let mut nops = nops;
+    assert!(len >= code.len());
+    let mut rest = len - code.len();
+    while nops > 0 && rest > 0 {
+        code.push(NOP);
+        nops -= 1;
+        rest -= 1;
+    }
+    // 3-byte and 4-byte stack-neutral units
+    while rest > 0 {
+        if rest == 1 || rest == 2 || rest == 5 {
+            code.push(NOP);
+            rest -= 1;
+        } else if rest % 3 == 0 || rest > 8 {
+            code.extend_from_slice(&[0x41, 0x00, DROP]);
+            rest -= 3;
+        } else {
+            code.extend_from_slice(&[0x41, 0xc0, 0x00, DROP]);
+            rest -= 4;
+        }
+    }
+    code
+}
+
+/// n functions; function `big` has a body of exactly `size` bytes (locals declaration and `end`
+/// included), the others are small
+pub fn build_leb(n: usize, big: usize, size: usize, nop_variant: bool) -> Vec<u8> {
+    build_leb_x(n, big, size, nop_variant, false)
+}
+
+/// as `build_leb`; with `extra_unexported` one more, unexported and uncalled function is appended
+/// (the GC pass removes it)
+pub fn build_leb_x(n: usize, big: usize, size: usize, nop_variant: bool, extra_unexported: bool) -> Vec<u8> {
+    let mut mb = MB::default();
+    let t0 = mb.ty(&[], &[]);
+    for i in 0..n {
+        let marker = 7000 + i as i32;
+        let code_len = if i == big { size.saturating_sub(2).max(4) } else { 4 + (i % 3) * 3 };
+        let mut code = padded_code(marker, code_len.max(cat(&[&i32_const(marker), &[DROP]]).len()), if nop_variant && i == big { 5.min(code_len / 4) } else { 0 });
+        code.push(END);
+        let f = mb.func(t0, vec![], code);
+        mb.export(&format!("f{}", i), 0, f);
+    }
+    if extra_unexported {
+        let mut code = padded_code(7999, 13, 0);
+        code.push(END);
+        mb.func(t0, vec![], code);
+    }
+    mb.build()
+}
+
+/// append a custom section to a binary
+pub fn append_custom(wasm: &mut Vec<u8>, name_: &str, data: &[u8]) {
+    let mut b = vec![];
+    name(name_, &mut b);
+    b.extend_from_slice(data);
+    wasm.push(0);
+    uleb(b.len() as u64, wasm);
+    wasm.extend_from_slice(&b);
+}
+
+pub fn leb_family(tier: Tier) -> Vec<Member> {
+    let ns: &[usize] = if tier == Tier::Quick { &[1, 2, 3, 128] } else { &[1, 2, 3, 127, 128, 129] };
+    let sizes: &[usize] = if tier == Tier::Quick { &[8, 127, 128, 16383, 16384] } else { &[8, 126, 127, 128, 129, 16382, 16383, 16384, 16385] };
+    let mut out = vec![];
+    for &n in ns {
+        for &s in sizes {
+            for nopv in [false, true] {
+                let mut bigs = vec![0];
+                if n > 1 {
+                    bigs.push(n - 1);
+                }
+                for big in bigs {
+                    out.push(Member { family: "leb", coords: format!("n={},big={},size={},nops={}", n, big, s, nopv), wasm: build_leb(n, big, s, nopv) });
+                }
+            }
+        }
+    }
+    out
+}
